@@ -49,6 +49,7 @@ type ReqSpec struct {
 	BodyLen  int      `json:"body_len"`
 	Form     []KV     `json:"form,omitempty"`
 	Files    []KV     `json:"files,omitempty"` // K = "param|filename", V = content
+	Step     int      `json:"reader_step,omitempty"` // bytes returned per Read by the body stream / file readers
 	body     []byte
 }
 
@@ -111,6 +112,8 @@ func genReq(t *rapid.T, idx int) *ReqSpec {
 		mode = rapid.SampledFrom([]string{"none", "bytes", "bytes", "stream-known", "stream-unknown", "form", "multipart"}).Draw(t, "bodyMode")
 	}
 	r.BodyMode = mode
+	// io.Reader bodies deliver their bytes in short reads (an io.Reader may return less than asked)
+	r.Step = rapid.SampledFrom([]int{1, 7, 100, 511, 512, 513, 1000, 4096, 1 << 20}).Draw(t, "readerStep")
 	switch mode {
 	case "bytes", "stream-known", "stream-unknown":
 		r.BodyLen = gen.BodyLen(t, "reqBodyLen", false)
@@ -127,7 +130,7 @@ func genReq(t *rapid.T, idx int) *ReqSpec {
 			r.Form = append(r.Form, KV{K: fmt.Sprintf("m%d", i), V: rapid.SampledFrom([]string{"", "v", "line1\r\nline2", "--boundary?"}).Draw(t, "mv")})
 		}
 		for i := 0; i < rapid.IntRange(0, 2).Draw(t, "nFiles"); i++ {
-			n := rapid.SampledFrom([]int{0, 1, 100, 5000}).Draw(t, "fileLen")
+			n := rapid.SampledFrom([]int{0, 1, 100, 511, 512, 513, 2000, 5000}).Draw(t, "fileLen")
 			r.Files = append(r.Files, KV{K: fmt.Sprintf("file%d|name%d.bin", i, i), V: string(gen.Body(n, i, 9, 1))})
 		}
 		if len(r.Form) == 0 && len(r.Files) == 0 {
@@ -171,9 +174,9 @@ func (r *ReqSpec) build(cfg *Config, api int) *protocol.Request {
 	case "bytes":
 		req.SetBody(r.body)
 	case "stream-known":
-		req.SetBodyStream(&pieceReader{data: append([]byte(nil), r.body...), step: 1000}, len(r.body))
+		req.SetBodyStream(&pieceReader{data: append([]byte(nil), r.body...), step: r.Step}, len(r.body))
 	case "stream-unknown":
-		req.SetBodyStream(&pieceReader{data: append([]byte(nil), r.body...), step: 777}, -1)
+		req.SetBodyStream(&pieceReader{data: append([]byte(nil), r.body...), step: r.Step}, -1)
 	case "form":
 		m := map[string]string{}
 		for _, kv := range r.Form {
@@ -182,11 +185,11 @@ func (r *ReqSpec) build(cfg *Config, api int) *protocol.Request {
 		req.SetFormData(m)
 	case "multipart":
 		for _, kv := range r.Form {
-			req.SetMultipartField(kv.K, "", "", strings.NewReader(kv.V))
+			req.SetMultipartField(kv.K, "", "", &pieceReader{data: []byte(kv.V), step: r.Step})
 		}
 		for _, f := range r.Files {
 			pn := strings.SplitN(f.K, "|", 2)
-			req.SetFileReader(pn[0], pn[1], strings.NewReader(f.V))
+			req.SetFileReader(pn[0], pn[1], &pieceReader{data: []byte(f.V), step: r.Step})
 		}
 	}
 	return req
@@ -501,6 +504,33 @@ func checkCase(c *Case) string {
 			}
 			if !found {
 				return fmt.Sprintf("%s: response header %q not returned by the client; got %q", id, wl, got)
+			}
+		}
+		// ... and nothing the server did not send: every other field line is returned exactly as many
+		// times as it was sent (content-type / content-length / server may be synthesised by the client)
+		synth := func(l string) bool {
+			for _, p := range []string{"content-type:", "content-length:", "server:", "date:"} {
+				if strings.HasPrefix(l, p) {
+					return true
+				}
+			}
+			return false
+		}
+		count := func(ls []string, l string) int {
+			n := 0
+			for _, x := range ls {
+				if x == l {
+					n++
+				}
+			}
+			return n
+		}
+		for _, gl := range got {
+			if synth(gl) {
+				continue
+			}
+			if cw, cg := count(want, gl), count(got, gl); cw != cg {
+				return fmt.Sprintf("%s: the client returned response header %q %d time(s), the server sent it %d time(s); got %q want %q (response delivered with cuts %v)", id, gl, cg, cw, got, want, ex.Cuts)
 			}
 		}
 		if ex.Resp.Framing == wire.FrChunked && !wire.Bodiless(ex.Req.Method, ex.Resp.Status) {
